@@ -4,10 +4,10 @@ package main
 // Usage: harness <driver> <outDir> [seed] [tier]
 
 import (
-	"path/filepath"
 	"encoding/json"
 	"fmt"
 	"os"
+	"path/filepath"
 	"strconv"
 )
 
@@ -62,6 +62,12 @@ func main() {
 			fmt.Fprintln(os.Stderr, err)
 			os.Exit(1)
 		}
+		return
+	}
+	if os.Args[1] == "expandtasks" {
+		// expandtasks <tasks as JSON> : one TasksToMessages call in a process of its own (address space capped), so that an
+		// expansion that eats memory ends THIS process and the driver lives to report it
+		runExpandTasks(os.Args[2])
 		return
 	}
 	probeDir = os.Args[2]
